@@ -54,7 +54,8 @@ def base_name(pretty):
 
 
 def is_ctor(f):
-    return bool(re.search(r'C[12]E', f.name)) and '::' in (f.pretty or '')
+    # C1E/C2E: ordinary constructors; C1I.../C2I...: constructor templates (the range / converting ones)
+    return bool(re.search(r'C[12][EI]', f.name)) and '::' in (f.pretty or '')
 
 
 def is_dtor(f):
